@@ -191,7 +191,7 @@ func coqMode(m string) string {
 }
 
 func view(a *nat.Allocation) string {
-	return fmt.Sprintf("{| v_priv := %d; v_pub := %d; v_start := %d; v_end := %d; v_pool := %d; v_sid := %d |}",
+	return fmt.Sprintf("(av %d %d %d %d %d %d)",
 		key(a.PrivateIP), key(a.PublicIP), a.PortStart, a.PortEnd, a.PoolIndex, a.SubscriberID)
 }
 
@@ -313,7 +313,7 @@ func run(c Case) vh.Case {
 		}
 		after := time.Now().UTC()
 		tags["op:"+o.K] = true
-		tr = append(tr, fmt.Sprintf("(%s, {| o_res := %s; o_logs := %s; o_ts := %s |})", op, res, recsCoq(rs), vh.Bool(s.tsOK(rs, before, after))))
+		tr = append(tr, fmt.Sprintf("(%s, mo (%s) %s %s)", op, res, recsCoq(rs), vh.Bool(s.tsOK(rs, before, after))))
 	}
 	if nExh > 0 {
 		tags["saw:exhausted"] = true
@@ -383,7 +383,7 @@ func (s *sys) conc(o Op) string {
 		}
 	}
 	rs := s.drain()
-	return fmt.Sprintf("ConcObs {| co_rets := %s; co_dealloc := %s; co_table := %s; co_log := %s |}",
+	return fmt.Sprintf("ConcObs (co %s %s %s %s)",
 		vh.List(all), vh.Bool(hasDealloc), vh.List(table), recsCoq(rs))
 }
 
@@ -510,10 +510,16 @@ func genConc(r *vh.Rng, g geom, mode string) Case {
 	}
 	var scripts [][]Op
 	ng := 2 + r.Intn(7)
-	switch r.Intn(3) {
+	switch r.Intn(4) {
 	case 0: // every goroutine allocates the same private IP
+		ng = 4 + r.Intn(13)
 		for i := 0; i < ng; i++ {
 			scripts = append(scripts, []Op{{K: "alloc", IP: priv(0)}})
+		}
+	case 3: // waves: every goroutine asks for the same three private IPs in the same order
+		ng = 4 + r.Intn(9)
+		for i := 0; i < ng; i++ {
+			scripts = append(scripts, []Op{{K: "alloc", IP: priv(0)}, {K: "alloc", IP: priv(1)}, {K: "alloc", IP: priv(2)}})
 		}
 	case 1: // two or three private IPs, several callers each, allocations only
 		for i := 0; i < ng; i++ {
@@ -553,6 +559,9 @@ Print R.
 
 func main() {
 	cfg := vh.ParseFlags()
+	if cfg.Shard == 250 {
+		cfg.Shard = 50 // long traces: small shards spread over the evaluation workers
+	}
 	if cfg.Replay != "" {
 		var c Case
 		if err := vh.LoadReplay(cfg.Replay, &c); err != nil {
@@ -575,9 +584,9 @@ func main() {
 	}
 
 	// guarded stream 1: exhaustive effective histories
-	depth := 5
+	depth := 6
 	if cfg.Thorough() {
-		depth = 7
+		depth = 8
 	}
 	var ex []vh.Case
 	for d := 1; d <= depth; d++ {
